@@ -400,12 +400,22 @@ impl GraphQLTranslator {
             });
         }
 
-        // Apply ordering (before pagination)
+        // Apply ordering (before pagination). The sort keys are properties of the root variable,
+        // which the projection of the selection set no longer carries: sort its input.
         if let Some(keys) = extracted.order_by {
-            plan = LogicalOperator::Sort(SortOp {
-                keys,
-                input: Box::new(plan),
-            });
+            plan = match plan {
+                LogicalOperator::Return(mut ret) => {
+                    ret.input = Box::new(LogicalOperator::Sort(SortOp {
+                        keys,
+                        input: ret.input,
+                    }));
+                    LogicalOperator::Return(ret)
+                }
+                other => LogicalOperator::Sort(SortOp {
+                    keys,
+                    input: Box::new(other),
+                }),
+            };
         }
 
         // Apply skip BEFORE limit
